@@ -9,7 +9,7 @@
 From Coq Require Import List ZArith Permutation Sorted.
 From TskVerif Require Import Base.Common C15.Combination C15.Partitions C15.RankTree
   C15.TopoSpec C15.CombProofs C15.CombRankProofs C15.WRProofs C15.RankTreeBounded
-  C15.PartitionProofs C15.OorProofs C15.ChildOrderProofs C15.LabelOorProofs C15.RuleAscProofs C15.NumShapesTotal C15.ShapeRankProofs C15.ShapeDenseProofs C15.LabelRankProofs C15.LabelTreeProofs C15.LabelDenseProofs C15.CountTopo C15.CountTopoProofs.
+  C15.PartitionProofs C15.OorProofs C15.ChildOrderProofs C15.LabelOorProofs C15.RuleAscProofs C15.NumShapesTotal C15.ShapeRankProofs C15.ShapeDenseProofs C15.LabelRankProofs C15.LabelTreeProofs C15.LabelDenseProofs C15.CountTopo C15.CountTopoProofs C15.CombBijection.
 Import ListNotations.
 Open Scope Z_scope.
 
@@ -335,3 +335,21 @@ Proof. exact tc_getitem_perm. Qed.
 Theorem count_key_canonical : forall k,
   StronglySorted Z.le (to_key k) /\ Permutation (to_key k) k /\ to_key (to_key k) = to_key k.
 Proof. intros k. split; [apply to_key_sorted | split; [apply to_key_members | apply to_key_idem]]. Qed.
+
+(* ---- (a') Combination.unrank is a bijection [0, C(n,k)) -> k-subsets: total on the range,
+   injective; rank is injective on the k-subsets (surjectivity: comb_rank_unrank above) ---- *)
+Theorem comb_unrank_total : forall (els : list Z) k r,
+  (1 <= k)%nat -> 0 <= r < Z.of_nat (binom (length els) k) ->
+  exists c, unrank r els k = Some c /\ In c (combs els k) /\ length c = k.
+Proof. exact comb_unrank_total_proof. Qed.
+
+Theorem comb_unrank_injective : forall n k r1 r2 c,
+  (1 <= k)%nat -> 0 <= r1 -> 0 <= r2 ->
+  unrank r1 (zrange 0 n) k = Some c -> unrank r2 (zrange 0 n) k = Some c -> r1 = r2.
+Proof. exact comb_unrank_injective_proof. Qed.
+
+Theorem comb_rank_injective : forall n k c1 c2 r,
+  (1 <= k)%nat -> In c1 (combs (zrange 0 n) k) -> In c2 (combs (zrange 0 n) k) ->
+  from_range_rank (S n) c1 (Z.of_nat n) = Some r -> from_range_rank (S n) c2 (Z.of_nat n) = Some r ->
+  c1 = c2.
+Proof. exact comb_rank_injective_proof. Qed.
